@@ -510,7 +510,7 @@ fn gen_bad(c: Cl) -> Vec<(&'static str, J)> {
         }
         Cl::Jurisdiction => { v.push(("jurisdiction:other country", json!("ZZ-1"))); v.push(("jurisdiction:lower", json!("us-ny"))); }
         Cl::Suffix => for s in ["jr", "10TH", "", "X"] { v.push(("code:not listed", json!(s))); },
-        Cl::Present => for n in [0u64, 2, 4294967296] { v.push(("code:not listed", json!(n))); },
+        Cl::Present => for n in [0u64, 2, 255, 256, 257, 513, 65537, 16777217, 4294967041, 4294967295, 4294967296, 4294967297] { v.push(("code:not listed", json!(n))); },
         Cl::Trunc | Cl::Dhs | Cl::Race => for s in ["t", "X", "", "TN"] { v.push(("code:not listed", json!(s))); },
         Cl::Weight => for n in [10u64, 255, 4294967296] { v.push(("code:not listed", json!(n))); },
         Cl::Edl => for n in [0u64, 3] { v.push(("code:not listed", json!(n))); },
@@ -593,7 +593,8 @@ fn add_dynamic(m: &mut Map<String, J>, rng: &mut impl Rng) {
 fn add_noise(m: &mut Map<String, J>, rng: &mut impl Rng) {
     // keys that are not identifiers of the data model: ignored
     // (near misses of the dynamic identifiers: signs, spaces, widths, prefixes that an integer / suffix parser may accept)
-    for k in ["foo", "age_over_5", "age_over_abc", "age_over_123", "AGE_OVER_18", "age_over_", "biometric_template", "Family_name", "age_over_1x", "age_over_٢١", "sex ", "",
+    for k in ["age_over_age_over_18", "age_over_age_over_age_over_21", "biometric_template_biometric_template_face", "biometric_template_biometric_template_", "age_over_biometric_template_18",
+              "foo", "age_over_5", "age_over_abc", "age_over_123", "AGE_OVER_18", "age_over_", "biometric_template", "Family_name", "age_over_1x", "age_over_٢١", "sex ", "",
               "age_over_+5", "age_over_-5", "age_over_+0", "age_over_ 5", "age_over_5 ", "age_over_0x", "age_over_1_", "age_over__1", "age_over_1e", "xage_over_18", "age_over_18 ", " age_over_18",
               "age_over_018", "biometric_template__face", "biometric_template_ ", "Biometric_template_face", "domestic_driving_privileges ", "name_suffix.v2"] {
         if rng.gen_bool(0.08) {
@@ -675,7 +676,8 @@ fn records(ctx: &mut Ctx) {
             }
             // every near miss of a dynamic identifier, one at a time, with each value type: it is no identifier of the
             // data model, so the record is accepted exactly as without it
-            for k in ["age_over_+5", "age_over_-5", "age_over_+0", "age_over_ 5", "age_over_5 ", "age_over_5", "age_over_0x", "age_over_1_", "age_over__1", "age_over_1e", "age_over_018", "age_over_18 ",
+            for k in ["age_over_age_over_18", "biometric_template_biometric_template_face", "biometric_template_biometric_template_",
+                      "age_over_+5", "age_over_-5", "age_over_+0", "age_over_ 5", "age_over_5 ", "age_over_5", "age_over_0x", "age_over_1_", "age_over__1", "age_over_1e", "age_over_018", "age_over_18 ",
                       " age_over_18", "xage_over_18", "age_over_１８", "age_over_1٢", "biometric_template_", "biometric_template", "Biometric_template_face", "biometric_template__face"] {
                 for v in [json!(true), json!("x"), json!(5), J::Null] {
                     let mut m = build_record(ns, &mut ctx.rng, &|_| false);
